@@ -401,7 +401,7 @@ def gen(seed, profile='general', big=False):
             kinds = rng.sample(['busy', 'ingest', 'dup', 'free'], rng.randint(1, 4))
         else:
             # includes proposals that must be *rejected with an error*: the run aborts at the first one
-            kinds = rng.sample(['busy', 'ingest', 'dup', 'free', 'foreign', 'unknown', 'resched'], rng.randint(1, 7))
+            kinds = rng.sample(['busy', 'ingest', 'dup', 'free', 'foreign', 'steal', 'unknown', 'resched'], rng.randint(1, 8))
         faults['adv'] = {'seed': rng.randint(0, 10 ** 6), 'rate': rng.choice([0.1, 0.2, 0.35, 0.6]), 'kinds': kinds}
     if rng.random() < fk.get('F3', 0):
         for o in obs:
@@ -454,7 +454,7 @@ PROFILES = {
     'buffer': {'buffer': {'ample': 60, 'wait': 20, 'tight': 16, 'over': 4}, 'overrate': 0.06,
                'pattern': {'b2b': 30, 'overlap': 50, 'simul': 10, 'gaps': 10},
                'nobs': {2: 40, 3: 40, 4: 20}, 'faults': {'F1': 0.3, 'F4': 0.2}},
-    'real': {'monitor': 'real', 'overrun': 0.25, 'dur': {1: 20, 2: 25, 3: 25, 4: 15, 5: 15}, 'big_units': 0.4,
+    'real': {'monitor': 'real', 'overrun': 0.25, 'zero_rate': 0.12, 'dur': {1: 20, 2: 25, 3: 25, 4: 15, 5: 15}, 'big_units': 0.4,
              'ntasks': {1: 20, 2: 25, 3: 25, 4: 15, 5: 15},
              'unit': {'seconds': 72, 'custom': 18, 'minutes': 5, 'hours': 5},
              'pattern': {'overlap': 45, 'b2b': 25, 'simul': 10, 'gaps': 20},
